@@ -88,12 +88,16 @@ class MOX(UraniumOxide):
         )
         total = massFracU + massFracPu
 
-        for Pu in nucDir.getNuclideNames("PU"):
+        for Pu in nucDir.getNuclideNames(elementSymbol="PU"):
+            if Pu not in self.massFrac:
+                continue
             self.setMassFrac(
                 Pu, self.getMassFrac(Pu) / massFracPu * massFracPuO2 * total
             )
 
-        for U in nucDir.getNuclideNames("PU"):
+        for U in nucDir.getNuclideNames(elementSymbol="U"):
+            if U not in self.massFrac:
+                continue
             self.setMassFrac(
                 U, self.getMassFrac(U) / massFracU * (1 - massFracPuO2) * total
             )
